@@ -64,8 +64,9 @@ Definition apply_reply (rq : request) (rp : reply) : request :=
     with_response rq (Some (set_payload r (rp_body rp)))
   end.
 
-(* result: fields of the observation, and the handler afterwards *)
-Definition exchange (h : handler) (now : N) (p : packet) (src : N) (rp : reply) : list N * handler :=
+(* result: fields of the observation, and the handler afterwards.  [always]: the server loop passes EVERY outgoing
+   response through intercept_response, also the ones intercept_request produced itself (mode 3) *)
+Definition exchange (always : bool) (h : handler) (now : N) (p : packet) (src : N) (rp : reply) : list N * handler :=
   match from_packet p src with
   | Ok rq =>
     let '(r1, rq1, h1) := intercept_request h now rq in
@@ -77,6 +78,14 @@ Definition exchange (h : handler) (now : N) (p : packet) (src : N) (rp : reply) 
       let '(r2, rq3, h2) := intercept_response h1 now rq2 in
       (wr_result r1 ++ 1 :: wr_bytes seen ++ wr_result r2 ++ wr_optpkt8 (response rq3) ++ [enc_len (response rq3)]
        ++ wr_state (c_peek (h_ttl h2) now k (h_cache h2)) ++ [len (h_cache h2)], h2)
+    | Ok true =>
+      if always then
+        let '(r2, rq3, h2) := intercept_response h1 now rq1 in
+        (wr_result r1 ++ 0 :: wr_bytes [] ++ wr_result r2 ++ wr_optpkt8 (response rq3) ++ [enc_len (response rq3)]
+         ++ wr_state (c_peek (h_ttl h2) now k (h_cache h2)) ++ [len (h_cache h2)], h2)
+      else
+        (wr_result r1 ++ 0 :: wr_bytes [] ++ [0; 0] ++ wr_optpkt8 (response rq1) ++ [enc_len (response rq1)]
+         ++ wr_state (c_peek (h_ttl h1) now k (h_cache h1)) ++ [len (h_cache h1)], h1)
     | _ =>
       (wr_result r1 ++ 0 :: wr_bytes [] ++ [0; 0] ++ wr_optpkt8 (response rq1) ++ [enc_len (response rq1)]
        ++ wr_state (c_peek (h_ttl h1) now k (h_cache h1)) ++ [len (h_cache h1)], h1)
@@ -86,7 +95,7 @@ Definition exchange (h : handler) (now : N) (p : packet) (src : N) (rp : reply) 
 
 (* ttl mode 0: one hour, never reached; mode 1: short, Sleep steps exceed it.  Model time: a
    millisecond clock that stands still except for Sleep. *)
-Definition ttl_of (mode : N) : N := if mode =? 0 then 3600000 else if mode =? 1 then 40 else 300.
+Definition ttl_of (mode : N) : N := if (mode =? 0) || (mode =? 3) then 3600000 else if mode =? 1 then 40 else 300.
 
 (* mode 1: only exchanges immediately after a Sleep are observed (everything else depends on
    the real clock) *)
@@ -96,13 +105,13 @@ Fixpoint run_steps (h : handler) (now : N) (mode : N) (after_sleep : bool) (l : 
   | Sleep :: r => run_steps h (now + 10 * h_ttl h + 1) mode true r
   | Nap :: r => run_steps h (now + 100) mode after_sleep r
   | Exchange _ p src rp :: r =>
-    let '(o, h') := exchange h now p src rp in
+    let '(o, h') := exchange (mode =? 3) h now p src rp in
     (if mode =? 2
      then (* mode 2: only the last exchange is observed, without the number of physical entries (which depends on
              how long the naps really took) *)
           (if existsb (fun s => match s with Exchange _ _ _ _ => true | _ => false end) r then []
            else let o' := removelast o ++ [0] in len o' :: o')
-     else if (mode =? 0) || after_sleep then len o :: o else []) ++ run_steps h' now mode false r
+     else if (mode =? 0) || (mode =? 3) || after_sleep then len o :: o else []) ++ run_steps h' now mode false r
   end.
 
 (* kind 2: an exchange whose application reply is the same as the previous exchange's *)
